@@ -215,12 +215,13 @@ impl PrettyParseError {
             )
         };
         let err_string = format!(
-            "{err}\n{arrow}{position}\n{pipe}\n{pipe}{the_line}\n{pipe}{caret:>caret_offset$}\n",
+            "{err}\n{arrow}{position}\n{pipe}\n{pipe}{the_line}\n{pipe}{caret_padding}{caret}\n",
             err = err.specifics.to_string().bold().white(),
             position = position,
             the_line = target_line.s.trim_end(),
             caret = "^".bold().red(),
-            caret_offset = character_position + 1,
+            // not a `{:>width$}`: format widths above 65535 panic
+            caret_padding = " ".repeat(character_position),
             arrow = "--> ".bold().blue(),
             pipe = " |  ".bold().blue(),
         );
